@@ -39,6 +39,9 @@ type Stream struct {
 	Kind  string `json:"kind"` // PAT | PMT | PES | SI
 	CC0   uint8  `json:"cc0,omitempty"`
 	Units []Unit `json:"units"`
+	// WaitPAT > 0 (PMT streams): the PID is announced only by a later PAT version; that many
+	// packets of the PAT stream precede the stream's packets in every generated multiplex
+	WaitPAT int `json:"wait_pat,omitempty"`
 }
 
 // Model is a whole transport stream: per-PID streams plus the multiplex schedule (Merge lists
